@@ -126,6 +126,10 @@ impl PathNode {
 //@ extract bundle.rs fn add_to_nodes
 //@ props C14
 //@ ret res
+//@ spec
+    ensures
+        // the only complaint is a contradiction, and it names the line being added                                   //# O-P2-contradiction-line [C14]
+        res matches Err(e) ==> e matches ParseError::Contradiction(_, b) && b == in_index,
 //@ end
 
 impl PathBundle {
@@ -137,12 +141,23 @@ impl PathBundle {
 //@ retype 1 /let mut i = 0;/ => let mut i : usize = 0;
 //@ spec
         requires level as int + lines@.len() < usize::MAX,
+            forall|k: int| 0 <= k < lines@.len() ==> (#[trigger] lines@[k]).level >= level,
+        ensures
+            // "rejected ... at the offending line": a wrong-indent error carries the number of one of these lines, and that line is
+            // indented deeper than its place allows (deeper than `level`, the depth this group of lines has to start at)          //# O-P2-wrong-indent-line [C14]
+            res matches Err(ParseError::WrongIndent(x)) ==> exists|k: int| 0 <= k < lines@.len() && (#[trigger] lines@[k]).num == x && lines@[k].level > level,
+            // a contradiction names one of these lines as the second of the two                                                  //# O-P2-contradiction-of-these [C14]
+            res matches Err(ParseError::Contradiction(_, b)) ==> exists|k: int| 0 <= k < lines@.len() && (#[trigger] lines@[k]).num == b,
+            res matches Err(ParseError::Empty) ==> lines@.len() == 0,
+            !(res matches Err(ParseError::ContainsEmptyLines(_))),
         decreases lines@.len(),
 //@ loop 1 invariant
             invariant n == lines@.len(), i <= n, level as int + lines@.len() < usize::MAX,
+                forall|k: int| 0 <= k < lines@.len() ==> (#[trigger] lines@[k]).level >= level,
             decreases n - i,
 //@ loop 2 invariant
                 invariant n == lines@.len(), i < j <= n,
+                    forall|k: int| i < k < j ==> (#[trigger] lines@[k]).level > level,
                 decreases n - j,
 //@ end
 
